@@ -12,6 +12,9 @@ import (
 	"sort"
 	"strconv"
 	"strings"
+
+	"golang.org/x/tools/go/cfg"
+	"golang.org/x/tools/go/packages"
 )
 
 func init() {
@@ -1047,4 +1050,1006 @@ func disjuncts(e ast.Expr) []ast.Expr {
 		return append(disjuncts(b.X), disjuncts(b.Y)...)
 	}
 	return []ast.Expr{e}
+}
+
+// ---------------------------------------------------------------------------------------------------------------------
+// Rules from the fourth batch of seeded changes.
+
+func init() {
+	reg(&Rule{ID: "R-C18-metakeys", Props: []string{"C18"}, Floor: 2,
+		Doc: "in the functions that build what modulemeta reports, the user's metadata object enters the result map before the computed keys (defs, deps, relpath, as, is_data) are written: a module cannot overwrite what modulemeta computes about it",
+		Run: ruleMetaKeys})
+	reg(&Rule{ID: "R-C14-flagforward", Props: []string{"C14"}, Floor: 8,
+		Doc: "in builtin.go's shipped definitions, a definition that takes $re and $flags passes $flags (or an expression of it) in every call to which it passes $re: no step of test/capture/scan/splits/sub matches with other flags than the caller's",
+		Run: ruleFlagForward})
+	reg(&Rule{ID: "R-C03-clampsentinel", Props: []string{"C03", "C14", "C08"}, Floor: 3,
+		Doc: "a position obtained from clampIndex with a lower bound below the valid range (the out-of-range sentinel) is compared with 0 before anything else is done with it",
+		Run: ruleClampSentinel})
+	reg(&Rule{ID: "R-C10-narrow", Props: []string{"C10", "C03", "C14"}, Floor: 1,
+		Doc: "an integer obtained from a JSON number is converted to a narrower integer type (rune, int32, byte …) only under a two-sided range test: the conversion wraps modulo 2^32 silently",
+		Run: ruleNarrow})
+	reg(&Rule{ID: "R-C13-brokendown", Props: []string{"C13"}, Floor: 8,
+		Doc: "every field of the broken-down time array is read off the one normalised time.Time value (a field computed from the raw epoch alone disagrees with the others for negative and fractional epochs)",
+		Run: ruleBrokenDown})
+	reg(&Rule{ID: "R-C14-cachekey", Props: []string{"C14", "C06"}, Floor: 1,
+		Doc: "what a function stores in a sync.Map cache depends only on what its key determines: every parameter the stored value depends on is in the key as a whole, or every test of it that the value depends on is in the key",
+		Run: ruleCacheKey})
+	reg(&Rule{ID: "R-C17-runeboundary", Props: []string{"C17"}, Floor: 4,
+		Doc: "in the excerpting of an error line every byte position a string is cut at is a length of a boundary-repaired prefix, or the cut is itself repaired (trimLastInvalidRune): a cut inside a multi-byte character shifts the caret and prints a broken character",
+		Run: ruleRuneBoundary})
+	reg(&Rule{ID: "R-C10-mulclamp", Props: []string{"C10", "C03", "C08"}, Floor: 1,
+		Doc: "outside the arithmetic operators (R-C10-guard), a machine-integer product one factor of which is converted from a JSON number has that factor clamped to a constant no larger than MaxInt32 before the conversion: the size test it feeds wraps modulo 2^64 otherwise",
+		Run: ruleMulClamp})
+	addDecided("C18", " The computed keys of modulemeta are written after the user's metadata (R-C18-metakeys).")
+	addDecided("C14", " Shipped regex definitions forward $flags wherever they forward $re (R-C14-flagforward); a clamped position is tested for the out-of-range sentinel first (R-C03-clampsentinel); code points from JSON numbers are range-tested before narrowing (R-C10-narrow); the regexp cache key determines the cached value (R-C14-cachekey).")
+	addDecided("C03", " R-C03-clampsentinel, R-C10-narrow, R-C10-mulclamp (see C14, C10).")
+	addDecided("C10", " Narrowing conversions of JSON-derived integers are range-tested (R-C10-narrow); products with a JSON-derived factor outside the operators are clamped first (R-C10-mulclamp).")
+	addDecided("C13", " Every broken-down time field is read off the normalised time.Time (R-C13-brokendown).")
+	addDecided("C17", " The excerpt of a long line is cut at repaired rune boundaries only (R-C17-runeboundary); the query file's text reaches the parser unmodified (R-C16-fileverbatim).")
+}
+
+// ---- R-C18-metakeys ----
+
+func ruleMetaKeys(c *Ctx, r *Rep) {
+	info := c.Gojq.TypesInfo
+	isToValue := func(e ast.Expr) bool {
+		call, ok := unparen(e).(*ast.CallExpr)
+		return ok && strings.HasSuffix(calleeName(info, call), "ConstObject.ToValue")
+	}
+	n := 0
+	for _, fd := range c.Decls(c.Gojq) {
+		// map variables that receive user metadata, and where
+		userAt := map[types.Object][]token.Pos{}
+		constAt := map[types.Object][]token.Pos{}
+		mapObj := func(e ast.Expr) types.Object {
+			id, ok := unparen(e).(*ast.Ident)
+			if !ok {
+				return nil
+			}
+			o := info.ObjectOf(id)
+			if o == nil {
+				return nil
+			}
+			if _, ok := o.Type().Underlying().(*types.Map); !ok {
+				return nil
+			}
+			return o
+		}
+		ast.Inspect(fd.Body, func(m ast.Node) bool {
+			switch x := m.(type) {
+			case *ast.AssignStmt:
+				for i, lhs := range x.Lhs {
+					if i >= len(x.Rhs) && len(x.Rhs) != 1 {
+						continue
+					}
+					rhs := x.Rhs[min(i, len(x.Rhs)-1)]
+					if o := mapObj(lhs); o != nil {
+						if isToValue(rhs) {
+							userAt[o] = append(userAt[o], x.Pos())
+						}
+						if cl, ok := unparen(rhs).(*ast.CompositeLit); ok {
+							for _, el := range cl.Elts {
+								if kv, ok := el.(*ast.KeyValueExpr); ok {
+									if _, ok := constString(info, kv.Key); ok {
+										constAt[o] = append(constAt[o], kv.Pos())
+									}
+								}
+							}
+						}
+					}
+					if ix, ok := unparen(lhs).(*ast.IndexExpr); ok {
+						if o := mapObj(ix.X); o != nil {
+							if _, ok := constString(info, ix.Index); ok {
+								constAt[o] = append(constAt[o], x.Pos())
+							}
+						}
+					}
+				}
+			case *ast.RangeStmt:
+				if !isToValue(x.X) {
+					return true
+				}
+				// for k, v := range X.ToValue() { m[k] = v }
+				ast.Inspect(x.Body, func(q ast.Node) bool {
+					as, ok := q.(*ast.AssignStmt)
+					if !ok {
+						return true
+					}
+					for _, lhs := range as.Lhs {
+						if ix, ok := unparen(lhs).(*ast.IndexExpr); ok {
+							if o := mapObj(ix.X); o != nil {
+								userAt[o] = append(userAt[o], as.Pos())
+							}
+						}
+					}
+					return true
+				})
+			}
+			return true
+		})
+		for o, us := range userAt {
+			cs := constAt[o]
+			if len(cs) == 0 {
+				continue
+			}
+			n++
+			lastUser, firstConst := us[0], cs[0]
+			for _, p := range us {
+				lastUser = max(lastUser, p)
+			}
+			for _, p := range cs {
+				firstConst = min(firstConst, p)
+			}
+			r.Check(lastUser < firstConst, "metakeys:"+declKey(fd)+":"+o.Name(), o.Pos(), "%s: the user's metadata enters %s before its %d computed keys are written: %v (copied afterwards, a module whose metadata has a key \"defs\" or \"relpath\" replaces what modulemeta computes)", declKey(fd), o.Name(), len(cs), lastUser < firstConst)
+		}
+	}
+	if n == 0 {
+		r.Undecided("metakeys:census", token.NoPos, "no function combines ConstObject.ToValue() with computed keys in one map")
+	}
+}
+
+// ---- R-C14-flagforward ----
+
+func litWalk(n any, f func(*litNode)) {
+	switch x := n.(type) {
+	case *litNode:
+		if x == nil {
+			return
+		}
+		f(x)
+		for _, v := range x.fields {
+			litWalk(v, f)
+		}
+	case []any:
+		for _, v := range x {
+			litWalk(v, f)
+		}
+	}
+}
+
+func litMentionsFunc(n any, name string) bool {
+	found := false
+	litWalk(n, func(x *litNode) {
+		if x.typ == "Func" && nStr(x, "Name") == name {
+			found = true
+		}
+	})
+	return found
+}
+
+func ruleFlagForward(c *Ctx, r *Rep) {
+	m, err := getBuiltinLit(c)
+	if err != nil {
+		r.Undecided("builtin.go", token.NoPos, "%v", err)
+		return
+	}
+	var names []string
+	for k := range m.fields {
+		names = append(names, k)
+	}
+	sort.Strings(names)
+	n := 0
+	for _, name := range names {
+		lst, _ := m.fields[name].([]any)
+		for _, d := range lst {
+			fdn, ok := d.(*litNode)
+			if !ok || fdn == nil {
+				continue
+			}
+			hasRe, hasFlags := false, false
+			for _, a := range nList(fdn, "Args") {
+				if s, ok := a.(string); ok {
+					hasRe = hasRe || s == "$re"
+					hasFlags = hasFlags || s == "$flags"
+				}
+			}
+			if !hasRe || !hasFlags {
+				continue
+			}
+			arity := len(nList(fdn, "Args"))
+			litWalk(nSub(fdn, "Body"), func(x *litNode) {
+				if x.typ != "Func" {
+					return
+				}
+				args := nList(x, "Args")
+				passesRe, passesFlags := false, false
+				for _, a := range args {
+					passesRe = passesRe || litMentionsFunc(a, "$re")
+					passesFlags = passesFlags || litMentionsFunc(a, "$flags")
+				}
+				if !passesRe {
+					return
+				}
+				n++
+				key := fmt.Sprintf("flagforward:%s/%d:%s/%d", name, arity, nStr(x, "Name"), len(args))
+				r.Check(passesFlags, key, token.NoPos, "%s/%d passes $re to %s/%d together with $flags: %v (a step that matches with other flags than the caller's — a pre-check with test($re), say — disagrees with the matches the result is composed of: `\"ABC\" | gsub(\"b\"; \"x\"; \"i\")`)", name, arity, nStr(x, "Name"), len(args), passesFlags)
+			})
+		}
+	}
+	if n == 0 {
+		r.Undecided("flagforward:census", token.NoPos, "no shipped definition takes both $re and $flags")
+	}
+}
+
+// ---- R-C03-clampsentinel ----
+
+func ruleClampSentinel(c *Ctx, r *Rep) {
+	info := c.Gojq.TypesInfo
+	n := 0
+	for _, fd := range c.Decls(c.Gojq) {
+		walkStack(fd.Body, func(m ast.Node, stack []ast.Node) bool {
+			call, ok := m.(*ast.CallExpr)
+			if !ok || calleeName(info, call) != "gojq.clampIndex" || len(call.Args) != 3 {
+				return true
+			}
+			lo, ok := constInt(info, call.Args[1])
+			if !ok || lo >= 0 {
+				return true // the lower bound is a valid position: nothing to test
+			}
+			n++
+			key := fmt.Sprintf("clamp:%s:%s", declKey(fd), c.Src(call.Args[2]))
+			// the variable that receives the result
+			var obj types.Object
+			var holder ast.Stmt
+			for i := len(stack) - 1; i >= 0; i-- {
+				if as, ok := stack[i].(*ast.AssignStmt); ok && len(as.Lhs) == 1 && len(as.Rhs) == 1 && unparen(as.Rhs[0]) == ast.Expr(call) {
+					if id, ok := as.Lhs[0].(*ast.Ident); ok {
+						obj = info.ObjectOf(id)
+						holder = as
+					}
+					break
+				}
+			}
+			if obj == nil {
+				r.Undecided(key, call.Pos(), "the result of clampIndex(…, %d, …) is not assigned to a variable", lo)
+				return true
+			}
+			isSentinelTest := func(e ast.Expr) bool {
+				found := false
+				ast.Inspect(e, func(q ast.Node) bool {
+					b, ok := q.(*ast.BinaryExpr)
+					if !ok {
+						return true
+					}
+					x, y := unparen(b.X), unparen(b.Y)
+					isObj := func(e ast.Expr) bool { id, ok := e.(*ast.Ident); return ok && info.ObjectOf(id) == obj }
+					isLow := func(e ast.Expr) bool {
+						v, ok := constInt(info, e)
+						return ok && (v == 0 || v == lo)
+					}
+					switch b.Op {
+					case token.LSS, token.LEQ, token.GTR, token.GEQ, token.EQL, token.NEQ:
+						if (isObj(x) && isLow(y)) || (isLow(x) && isObj(y)) {
+							found = true
+						}
+					}
+					return true
+				})
+				return found
+			}
+			mentionsObj := func(nd ast.Node) bool {
+				f := false
+				ast.Inspect(nd, func(q ast.Node) bool {
+					if id, ok := q.(*ast.Ident); ok && info.ObjectOf(id) == obj {
+						f = true
+					}
+					return true
+				})
+				return f
+			}
+			// (a) if r := clampIndex(…); COND
+			for i := len(stack) - 1; i >= 0; i-- {
+				if ifs, ok := stack[i].(*ast.IfStmt); ok && ifs.Init == holder {
+					good := isSentinelTest(ifs.Cond)
+					r.Check(good, key, call.Pos(), "%s: the position clamped to [%d, %s] is compared with the sentinel in the condition of the same if: %v", declKey(fd), lo, c.Src(call.Args[2]), good)
+					return true
+				}
+			}
+			// (b) r = clampIndex(…) in a statement list: the next statement that mentions r is an if whose condition tests it
+			var list []ast.Stmt
+			for i := len(stack) - 1; i >= 0; i-- {
+				switch b := stack[i].(type) {
+				case *ast.BlockStmt:
+					list = b.List
+				case *ast.CaseClause:
+					list = b.Body
+				}
+				if list != nil {
+					break
+				}
+			}
+			idx := -1
+			for i, st := range list {
+				if st == holder {
+					idx = i
+				}
+			}
+			if idx < 0 {
+				r.Undecided(key, call.Pos(), "the clamp is not a statement of a block")
+				return true
+			}
+			for _, st := range list[idx+1:] {
+				if !mentionsObj(st) {
+					continue
+				}
+				ifs, ok := st.(*ast.IfStmt)
+				good := ok && ifs.Init == nil && isSentinelTest(ifs.Cond)
+				r.Check(good, key, call.Pos(), "%s: the first thing done with the position clamped to [%d, %s] is the comparison with the sentinel (%d stands for \"before the beginning\"): %v — used otherwise, `\"aé☆\" | .[-5]` yields the first character instead of null", declKey(fd), lo, c.Src(call.Args[2]), lo, good)
+				return true
+			}
+			r.OK(key, call.Pos(), "%s: the clamped position is not used afterwards", declKey(fd))
+			return true
+		})
+	}
+	if n == 0 {
+		r.Undecided("clamp:census", token.NoPos, "no clampIndex call with a sentinel lower bound found")
+	}
+}
+
+// ---- R-C10-narrow ----
+
+// jsonDerivedInts: the integer variables of a function that hold a JSON number: results of the numeric normalisers and
+// bindings of type assertions / type switches on an `any`.
+func jsonDerivedInts(info *types.Info, fd *ast.FuncDecl) map[types.Object]ast.Node {
+	out := map[types.Object]ast.Node{}
+	normalisers := map[string]bool{"gojq.toInt": true, "gojq.floatToInt": true, "gojq.toIntFloor": true, "gojq.toIntCeil": true}
+	ast.Inspect(fd.Body, func(m ast.Node) bool {
+		switch x := m.(type) {
+		case *ast.AssignStmt:
+			if len(x.Rhs) != 1 {
+				return true
+			}
+			rhs := unparen(x.Rhs[0])
+			def := func() {
+				if id, ok := x.Lhs[0].(*ast.Ident); ok {
+					if o := info.ObjectOf(id); o != nil && isMachineInt(o.Type()) {
+						out[o] = x
+					}
+				}
+			}
+			switch y := rhs.(type) {
+			case *ast.CallExpr:
+				if normalisers[calleeName(info, y)] {
+					def()
+				}
+				// int(<float64 expression>)
+				if tv, ok := info.Types[y.Fun]; ok && tv.IsType() && isMachineInt(tv.Type) && len(y.Args) == 1 {
+					if b, ok := info.TypeOf(y.Args[0]).Underlying().(*types.Basic); ok && b.Info()&types.IsFloat != 0 {
+						def()
+					}
+				}
+			case *ast.TypeAssertExpr:
+				if y.Type != nil {
+					def()
+				}
+			}
+		case *ast.TypeSwitchStmt:
+			// switch v := x.(type) { case int: … }: the implicit objects per clause
+			for _, s := range x.Body.List {
+				cc := s.(*ast.CaseClause)
+				if o := info.Implicits[cc]; o != nil && isMachineInt(o.Type()) {
+					out[o] = cc
+				}
+			}
+		}
+		return true
+	})
+	return out
+}
+
+func intSize(t types.Type) int64 {
+	b, ok := t.Underlying().(*types.Basic)
+	if !ok {
+		return 0
+	}
+	switch b.Kind() {
+	case types.Int8, types.Uint8:
+		return 1
+	case types.Int16, types.Uint16:
+		return 2
+	case types.Int32, types.Uint32:
+		return 4
+	case types.Int, types.Uint, types.Int64, types.Uint64, types.Uintptr:
+		return 8
+	}
+	return 0
+}
+
+// boundedBothSides: x is compared from below and from above in the conditions that hold at nd (enclosing ifs whose body
+// contains nd; conjunctions only).
+func boundedBothSides(info *types.Info, obj types.Object, nd ast.Node, stack []ast.Node) bool {
+	lower, upper := false, false
+	isObj := func(e ast.Expr) bool { id, ok := unparen(e).(*ast.Ident); return ok && info.ObjectOf(id) == obj }
+	var scan func(e ast.Expr)
+	scan = func(e ast.Expr) {
+		b, ok := unparen(e).(*ast.BinaryExpr)
+		if !ok {
+			return
+		}
+		if b.Op == token.LAND {
+			scan(b.X)
+			scan(b.Y)
+			return
+		}
+		switch {
+		case isObj(b.X) && (b.Op == token.LSS || b.Op == token.LEQ), isObj(b.Y) && (b.Op == token.GTR || b.Op == token.GEQ):
+			upper = true
+		case isObj(b.X) && (b.Op == token.GTR || b.Op == token.GEQ), isObj(b.Y) && (b.Op == token.LSS || b.Op == token.LEQ):
+			lower = true
+		}
+	}
+	for _, anc := range stack {
+		if ifs, ok := anc.(*ast.IfStmt); ok && nd.Pos() >= ifs.Body.Pos() && nd.End() <= ifs.Body.End() {
+			scan(ifs.Cond)
+		}
+	}
+	return lower && upper
+}
+
+func ruleNarrow(c *Ctx, r *Rep) {
+	n := 0
+	for _, p := range []*packages.Package{c.Gojq, c.Cli} {
+		if p == nil {
+			continue
+		}
+		info := p.TypesInfo
+		for _, fd := range c.Decls(p) {
+			derived := jsonDerivedInts(info, fd)
+			if len(derived) == 0 {
+				continue
+			}
+			walkStack(fd.Body, func(m ast.Node, stack []ast.Node) bool {
+				call, ok := m.(*ast.CallExpr)
+				if !ok || len(call.Args) != 1 {
+					return true
+				}
+				tv, ok := info.Types[call.Fun]
+				if !ok || !tv.IsType() {
+					return true
+				}
+				to := intSize(tv.Type)
+				id, ok := unparen(call.Args[0]).(*ast.Ident)
+				if !ok || to == 0 {
+					return true
+				}
+				obj := info.ObjectOf(id)
+				if _, ok := derived[obj]; !ok || intSize(obj.Type()) <= to {
+					return true
+				}
+				n++
+				good := boundedBothSides(info, obj, call, stack)
+				r.Check(good, fmt.Sprintf("narrow:%s:%s", declKey(fd), c.Src(call)), call.Pos(), "%s narrows %s (a JSON number) with %s under a two-sided range test: %v — unguarded, 4294967361 becomes 'A' (the conversion wraps modulo 2^%d; WriteRune never sees the original value)", declKey(fd), id.Name, c.Src(call), good, to*8)
+				return true
+			})
+		}
+	}
+	if n == 0 {
+		r.Undecided("narrow:census", token.NoPos, "no narrowing conversion of a JSON-derived integer found (funcImplode converts code points to rune)")
+	}
+}
+
+// ---- R-C13-brokendown ----
+
+func ruleBrokenDown(c *Ctx, r *Rep) {
+	info := c.Gojq.TypesInfo
+	n := 0
+	for _, fd := range c.Decls(c.Gojq) {
+		ast.Inspect(fd.Body, func(m ast.Node) bool {
+			cl, ok := m.(*ast.CompositeLit)
+			if !ok || len(cl.Elts) < 6 {
+				return true
+			}
+			if _, ok := info.TypeOf(cl).Underlying().(*types.Slice); !ok {
+				return true
+			}
+			// the time.Time variable most elements are read off
+			count := map[types.Object]int{}
+			for _, el := range cl.Elts {
+				seen := map[types.Object]bool{}
+				ast.Inspect(el, func(q ast.Node) bool {
+					if id, ok := q.(*ast.Ident); ok {
+						if o := info.Uses[id]; o != nil && isNamed(o.Type(), "time", "Time") && !seen[o] {
+							seen[o] = true
+							count[o]++
+						}
+					}
+					return true
+				})
+			}
+			var tObj types.Object
+			for o, k := range count {
+				if k*2 > len(cl.Elts) {
+					tObj = o
+				}
+			}
+			if tObj == nil {
+				return true
+			}
+			for i, el := range cl.Elts {
+				n++
+				uses := false
+				ast.Inspect(el, func(q ast.Node) bool {
+					if id, ok := q.(*ast.Ident); ok && info.Uses[id] == tObj {
+						uses = true
+					}
+					return true
+				})
+				r.Check(uses, fmt.Sprintf("brokendown:%s:[%d]", declKey(fd), i), el.Pos(), "field %d of the broken-down time built in %s (`%s`) is read off %s, the normalised time the other fields come from: %v", i, declKey(fd), c.Src(el), tObj.Name(), uses)
+			}
+			return false
+		})
+	}
+	if n == 0 {
+		r.Undecided("brokendown:census", token.NoPos, "no broken-down time literal found")
+	}
+}
+
+// ---- R-C14-cachekey ----
+
+func ruleCacheKey(c *Ctx, r *Rep) {
+	info := c.Gojq.TypesInfo
+	n := 0
+	for _, fd := range c.Decls(c.Gojq) {
+		var store *ast.CallExpr
+		ast.Inspect(fd.Body, func(m ast.Node) bool {
+			if call, ok := m.(*ast.CallExpr); ok && calleeName(info, call) == "sync.Map.Store" && len(call.Args) == 2 {
+				store = call
+			}
+			return true
+		})
+		if store == nil || fd.Type.Params == nil {
+			continue
+		}
+		n++
+		key := "cachekey:" + declKey(fd)
+		params := map[types.Object]bool{}
+		for _, f := range fd.Type.Params.List {
+			for _, nm := range f.Names {
+				if o := info.Defs[nm]; o != nil {
+					if isNamed(o.Type(), "sync", "Map") {
+						continue
+					}
+					if pt, ok := o.Type().(*types.Pointer); ok && isNamed(pt.Elem(), "sync", "Map") {
+						continue
+					}
+					params[o] = true
+				}
+			}
+		}
+		// backward slice of an expression: parameters used as a whole, and tests of parameters it is control dependent on.
+		// Assignments to the same variable accumulate (flow-insensitive within the function): sound for "depends on".
+		type dep struct {
+			whole map[types.Object]bool
+			tests map[string]types.Object // normalised source of a call/comparison over a parameter -> parameter
+		}
+		assigns := map[types.Object][]*ast.AssignStmt{}
+		parentIfs := map[*ast.AssignStmt][]ast.Expr{}
+		walkStack(fd.Body, func(m ast.Node, stack []ast.Node) bool {
+			as, ok := m.(*ast.AssignStmt)
+			if !ok {
+				return true
+			}
+			for _, lhs := range as.Lhs {
+				if id, ok := lhs.(*ast.Ident); ok {
+					if o := info.ObjectOf(id); o != nil {
+						assigns[o] = append(assigns[o], as)
+					}
+				}
+			}
+			for _, anc := range stack {
+				if ifs, ok := anc.(*ast.IfStmt); ok && as.Pos() >= ifs.Body.Pos() && as.End() <= ifs.Body.End() {
+					parentIfs[as] = append(parentIfs[as], ifs.Cond)
+				}
+			}
+			return true
+		})
+		var slice func(e ast.Expr, d *dep, seen map[types.Object]bool, asTest bool)
+		slice = func(e ast.Expr, d *dep, seen map[types.Object]bool, asTest bool) {
+			// a test over exactly one parameter (a call or comparison whose only variable is that parameter)
+			if asTest {
+				vars := map[types.Object]bool{}
+				ast.Inspect(e, func(q ast.Node) bool {
+					if id, ok := q.(*ast.Ident); ok {
+						if o, ok := info.Uses[id].(*types.Var); ok && !o.IsField() {
+							vars[o] = true
+						}
+					}
+					return true
+				})
+				if len(vars) == 1 {
+					for o := range vars {
+						if params[o] && len(assigns[o]) == 0 {
+							d.tests[types.ExprString(e)+"|"+c.Src(e)] = o
+							return
+						}
+					}
+				}
+			}
+			ast.Inspect(e, func(q ast.Node) bool {
+				id, ok := q.(*ast.Ident)
+				if !ok {
+					return true
+				}
+				o, ok := info.Uses[id].(*types.Var)
+				if !ok || o.IsField() {
+					return true
+				}
+				if params[o] {
+					d.whole[o] = true
+				}
+				if seen[o] {
+					return true
+				}
+				seen[o] = true
+				for _, as := range assigns[o] {
+					for _, rhs := range as.Rhs {
+						slice(rhs, d, seen, false)
+					}
+					for _, cond := range parentIfs[as] {
+						slice(cond, d, seen, true)
+					}
+				}
+				return true
+			})
+		}
+		val := &dep{whole: map[types.Object]bool{}, tests: map[string]types.Object{}}
+		slice(store.Args[1], val, map[types.Object]bool{}, false)
+		kd := &dep{whole: map[types.Object]bool{}, tests: map[string]types.Object{}}
+		// the key: every element of a composite literal is a test or a whole use
+		keyExpr := unparen(store.Args[0])
+		var keyParts []ast.Expr
+		var collect func(e ast.Expr, seen map[types.Object]bool)
+		collect = func(e ast.Expr, seen map[types.Object]bool) {
+			e = unparen(e)
+			switch x := e.(type) {
+			case *ast.CompositeLit:
+				for _, el := range x.Elts {
+					if kv, ok := el.(*ast.KeyValueExpr); ok {
+						collect(kv.Value, seen)
+					} else {
+						collect(el, seen)
+					}
+				}
+				return
+			case *ast.Ident:
+				if o, ok := info.Uses[x].(*types.Var); ok && !params[o] && !seen[o] && len(assigns[o]) > 0 {
+					seen[o] = true
+					for _, as := range assigns[o] {
+						for _, rhs := range as.Rhs {
+							collect(rhs, seen)
+						}
+					}
+					return
+				}
+			}
+			keyParts = append(keyParts, e)
+		}
+		collect(keyExpr, map[types.Object]bool{})
+		for _, part := range keyParts {
+			if id, ok := part.(*ast.Ident); ok {
+				if o, ok := info.Uses[id].(*types.Var); ok && params[o] {
+					kd.whole[o] = true
+					continue
+				}
+			}
+			slice(part, kd, map[types.Object]bool{}, true)
+		}
+		// a parameter reassigned in the function (re = "(?i)" + re) is still "the parameter" for the key when the key was
+		// built from it before: handled flow-insensitively — whole use in the key counts
+		var missing []string
+		for o := range val.whole {
+			if kd.whole[o] {
+				continue
+			}
+			missing = append(missing, "the whole of "+o.Name())
+		}
+		for t, o := range val.tests {
+			if kd.whole[o] {
+				continue
+			}
+			if _, ok := kd.tests[t]; !ok {
+				missing = append(missing, "the test "+strings.SplitN(t, "|", 2)[1])
+			}
+		}
+		sort.Strings(missing)
+		r.Check(len(missing) == 0, key, store.Pos(), "%s: the cached value depends only on what the key %s determines: %v %s (otherwise the first caller decides what later callers with other arguments get: `\"a\\nb\" | [test(\"a.b\"), test(\"a.b\"; \"m\")]`)", declKey(fd), c.Src(keyExpr), len(missing) == 0, strings.Join(missing, "; "))
+	}
+	if n == 0 {
+		r.Undecided("cachekey:census", token.NoPos, "no function stores into a sync.Map")
+	}
+}
+
+// ---- R-C17-runeboundary ----
+
+func ruleRuneBoundary(c *Ctx, r *Rep) {
+	p := c.Cli
+	info := p.TypesInfo
+	// the boundary-repairing functions: return a slice of their string parameter and consult utf8.RuneStart / Decode*
+	repair := map[string]bool{}
+	for _, fd := range c.Decls(p) {
+		if fd.Type.Params == nil || len(fd.Type.Params.List) != 1 || fd.Type.Results == nil || len(fd.Type.Results.List) != 1 {
+			continue
+		}
+		usesUTF8, slicesParam := false, false
+		var param types.Object
+		if len(fd.Type.Params.List[0].Names) == 1 {
+			param = info.Defs[fd.Type.Params.List[0].Names[0]]
+		}
+		if param == nil || types.TypeString(param.Type(), nil) != "string" {
+			continue
+		}
+		ast.Inspect(fd.Body, func(m ast.Node) bool {
+			switch x := m.(type) {
+			case *ast.CallExpr:
+				if nm := calleeName(info, x); nm == "utf8.RuneStart" || strings.HasPrefix(nm, "utf8.Decode") || nm == "utf8.ValidString" {
+					usesUTF8 = true
+				}
+			case *ast.ReturnStmt:
+				for _, res := range x.Results {
+					if se, ok := unparen(res).(*ast.SliceExpr); ok {
+						if id, ok := unparen(se.X).(*ast.Ident); ok && info.Uses[id] == param {
+							slicesParam = true
+						}
+					}
+				}
+			}
+			return true
+		})
+		if usesUTF8 && slicesParam {
+			repair["cli."+fd.Name.Name] = true
+		}
+	}
+	fd := c.Decl(p, "getLineByOffset")
+	if fd == nil || len(repair) == 0 {
+		r.Undecided("runeboundary:anchor", token.NoPos, "getLineByOffset or the boundary-repairing helper not found (%v)", keysOf(repair))
+		return
+	}
+	g := cfg.New(fd.Body, func(*ast.CallExpr) bool { return true })
+	// aligned expression: 0, len(…), or len(repair(…))
+	var alignedExpr func(e ast.Expr) bool
+	alignedExpr = func(e ast.Expr) bool {
+		e = unparen(e)
+		if v, ok := constInt(info, e); ok && v == 0 {
+			return true
+		}
+		if call, ok := e.(*ast.CallExpr); ok && len(call.Args) == 1 {
+			if f, ok := call.Fun.(*ast.Ident); ok && f.Name == "len" {
+				return true
+			}
+		}
+		return false
+	}
+	// definitions of obj reaching the statement that contains pos
+	reaching := func(obj types.Object, pos token.Pos) ([]ast.Expr, bool) {
+		type defn struct {
+			rhs ast.Expr // nil: not an assignment the rule understands
+		}
+		defsIn := func(nd ast.Node) (*defn, bool) {
+			var d *defn
+			found := false
+			ast.Inspect(nd, func(q ast.Node) bool {
+				switch x := q.(type) {
+				case *ast.AssignStmt:
+					for i, lhs := range x.Lhs {
+						if id, ok := lhs.(*ast.Ident); ok && info.ObjectOf(id) == obj {
+							found = true
+							if x.Tok == token.ASSIGN || x.Tok == token.DEFINE {
+								if len(x.Rhs) == len(x.Lhs) {
+									d = &defn{rhs: x.Rhs[i]}
+								} else {
+									d = &defn{}
+								}
+							} else {
+								d = &defn{} // op-assignment
+							}
+						}
+					}
+				case *ast.IncDecStmt:
+					if id, ok := x.X.(*ast.Ident); ok && info.ObjectOf(id) == obj {
+						found = true
+						d = &defn{}
+					}
+				}
+				return true
+			})
+			return d, found
+		}
+		in := map[*cfg.Block]map[*defn]bool{}
+		out := map[*cfg.Block]map[*defn]bool{}
+		gen := map[*cfg.Block]*defn{}
+		for _, b := range g.Blocks {
+			for _, nd := range b.Nodes {
+				if d, ok := defsIn(nd); ok {
+					gen[b] = d
+				}
+			}
+			in[b], out[b] = map[*defn]bool{}, map[*defn]bool{}
+		}
+		param := &defn{} // the value on entry (a parameter or the zero value)
+		if len(g.Blocks) > 0 {
+			in[g.Blocks[0]][param] = true
+		}
+		for changed := true; changed; {
+			changed = false
+			for _, b := range g.Blocks {
+				o := map[*defn]bool{}
+				if d := gen[b]; d != nil {
+					o[d] = true
+				} else {
+					for d := range in[b] {
+						o[d] = true
+					}
+				}
+				if len(o) != len(out[b]) {
+					changed = true
+				}
+				out[b] = o
+				for _, s := range b.Succs {
+					for d := range o {
+						if !in[s][d] {
+							in[s][d] = true
+							changed = true
+						}
+					}
+				}
+			}
+		}
+		for _, b := range g.Blocks {
+			for k, nd := range b.Nodes {
+				if !(nd.Pos() <= pos && pos < nd.End()) {
+					continue
+				}
+				// the last definition before node k in this block, else IN
+				var last *defn
+				for _, prev := range b.Nodes[:k] {
+					if d, ok := defsIn(prev); ok {
+						last = d
+					}
+				}
+				var ds []*defn
+				if last != nil {
+					ds = []*defn{last}
+				} else {
+					for d := range in[b] {
+						ds = append(ds, d)
+					}
+				}
+				var rhs []ast.Expr
+				for _, d := range ds {
+					if d.rhs == nil {
+						return nil, false
+					}
+					rhs = append(rhs, d.rhs)
+				}
+				return rhs, len(rhs) > 0
+			}
+		}
+		return nil, false
+	}
+	n := 0
+	walkStack(fd.Body, func(m ast.Node, stack []ast.Node) bool {
+		se, ok := m.(*ast.SliceExpr)
+		if !ok {
+			return true
+		}
+		if b, ok := info.TypeOf(se.X).Underlying().(*types.Basic); !ok || b.Info()&types.IsString == 0 {
+			return true
+		}
+		n++
+		key := "runeboundary:" + c.Src(se)
+		// repaired as a whole?
+		if len(stack) > 0 {
+			if call, ok := stack[len(stack)-1].(*ast.CallExpr); ok && repair[calleeName(info, call)] {
+				r.OK(key, se.Pos(), "the cut %s is handed to %s, which moves it back to a character boundary", c.Src(se), calleeName(info, call))
+				return true
+			}
+		}
+		for _, bnd := range []ast.Expr{se.Low, se.High} {
+			if bnd == nil || alignedExpr(bnd) {
+				continue
+			}
+			id, ok := unparen(bnd).(*ast.Ident)
+			if !ok {
+				r.Bad(key, se.Pos(), "%s is cut at the computed byte position %s without being moved back to a character boundary: in a line of multi-byte characters the excerpt starts or ends inside a character, which prints as U+FFFD and shifts the caret", c.Src(se.X), c.Src(bnd))
+				return true
+			}
+			defs, ok := reaching(info.ObjectOf(id), se.Pos())
+			if !ok {
+				r.Bad(key, se.Pos(), "%s is cut at %s, whose value at this point is not the length of a repaired prefix on every path (a parameter, an arithmetic update, or an unknown definition reaches the cut)", c.Src(se.X), id.Name)
+				return true
+			}
+			for _, d := range defs {
+				if !alignedExpr(d) {
+					r.Bad(key, se.Pos(), "%s is cut at %s = %s, a byte position that need not be a character boundary", c.Src(se.X), id.Name, c.Src(d))
+					return true
+				}
+			}
+		}
+		r.OK(key, se.Pos(), "every bound of %s is 0, a length, or the length of a boundary-repaired prefix on every path", c.Src(se))
+		return true
+	})
+	if n == 0 {
+		r.Undecided("runeboundary:census", fd.Pos(), "getLineByOffset cuts no string")
+	}
+}
+
+// ---- R-C10-mulclamp ----
+
+func ruleMulClamp(c *Ctx, r *Rep) {
+	info := c.Gojq.TypesInfo
+	guardScopes := intArithScopes(c)
+	inGuardScope := func(pos token.Pos) bool {
+		for _, b := range guardScopes {
+			if b.Pos() <= pos && pos < b.End() {
+				return true
+			}
+		}
+		return false
+	}
+	n := 0
+	for _, fd := range c.Decls(c.Gojq) {
+		derived := jsonDerivedInts(info, fd)
+		if len(derived) == 0 {
+			continue
+		}
+		ast.Inspect(fd.Body, func(m ast.Node) bool {
+			b, ok := m.(*ast.BinaryExpr)
+			if !ok || b.Op != token.MUL || inGuardScope(b.Pos()) {
+				return true
+			}
+			tx, ty := info.TypeOf(b.X), info.TypeOf(b.Y)
+			if tx == nil || ty == nil || intSize(tx) == 0 || intSize(ty) == 0 {
+				return true
+			}
+			if tv, ok := info.Types[b]; ok && tv.Value != nil {
+				return true
+			}
+			for _, op := range []ast.Expr{b.X, b.Y} {
+				// through integer conversions to the variable
+				e := unparen(op)
+				for {
+					call, ok := e.(*ast.CallExpr)
+					if !ok || len(call.Args) != 1 {
+						break
+					}
+					if tv, ok := info.Types[call.Fun]; !ok || !tv.IsType() {
+						break
+					}
+					e = unparen(call.Args[0])
+				}
+				id, ok := e.(*ast.Ident)
+				if !ok {
+					continue
+				}
+				def, ok := derived[info.ObjectOf(id)]
+				if !ok {
+					continue
+				}
+				n++
+				key := fmt.Sprintf("mulclamp:%s:%s", declKey(fd), id.Name)
+				// the definition must be int(min(<x>, CONST)) with CONST <= MaxInt32
+				good := false
+				if as, ok := def.(*ast.AssignStmt); ok && len(as.Rhs) == 1 {
+					if conv, ok := unparen(as.Rhs[0]).(*ast.CallExpr); ok && len(conv.Args) == 1 {
+						if mn, ok := unparen(conv.Args[0]).(*ast.CallExpr); ok {
+							if f, ok := mn.Fun.(*ast.Ident); ok && f.Name == "min" {
+								for _, a := range mn.Args {
+									if tv, ok := info.Types[a]; ok && tv.Value != nil {
+										if f, _ := constant.Float64Val(constant.ToFloat(tv.Value)); f <= 1<<31 {
+											good = true
+										}
+									}
+								}
+							}
+						}
+					}
+				}
+				r.Check(good, key, b.Pos(), "%s multiplies by %s, converted from a JSON number after a clamp to a constant no larger than 2^31: %v — with a saturating conversion instead, `\"abcd\" * 4611686018427387904` makes the size test's product wrap to 0 and strings.Repeat panics", declKey(fd), id.Name, good)
+			}
+			return true
+		})
+	}
+	if n == 0 {
+		r.Undecided("mulclamp:census", token.NoPos, "no machine-integer product with a JSON-derived factor found outside the arithmetic operators (repeatString has one)")
+	}
 }
